@@ -231,6 +231,28 @@ let dispatch (op : string) (t : toks) : string =
        | VOk -> "ok"
        | VBad (who, why, at) -> Printf.sprintf "bad %s why=%d at_element=%d" (if who then "master" else "slave")
                                   (int_of_n why) (int_of_nat at))
+  | "mboxrun" ->
+      let folder_of i = (match i with 0 -> FIn | 1 -> FOut | _ -> FSent) in
+      let rcd t = let mid = get_bytes t in let rc = get_list t get_bytes in let p2p = get_bool t in
+                  let tag = get_int t in
+                  { m_mid = mid; m_rcpts = rc; m_p2ponly = p2p; m_unread = false; m_tag = n_of_int tag } in
+      let ops = get_list t (fun t -> match next t with
+        | "add" -> DAddOut (rcd t)
+        | "prep" -> DPrepare
+        | "restart" -> DRestart (get_bool t)
+        | "getout" -> DGetOutbound (get_list t get_bytes)
+        | "sent" -> DSetSent (get_bytes t)
+        | "defer" -> DSetDeferred (get_bytes t)
+        | "inbound" -> DProcessInbound (rcd t)
+        | "answer" -> DGetInboundAnswer (get_bytes t)
+        | "unread" -> let f = get_int t in let mid = get_bytes t in let u = get_bool t in DSetUnread (folder_of f, mid, u)
+        | "list" -> DList (folder_of (get_int t))
+        | s -> raise (Bad ("mbox op " ^ s))) in
+      String.concat " | " (List.map (fun o -> match o with
+        | ObNone -> "none"
+        | ObMids l -> "mids " ^ out_list (fun (m, f) -> out_bytes m ^ ":" ^ out_bool f) l
+        | ObAnswer a -> "ans:" ^ String.make 1 (Char.chr (int_of_n a))
+        | ObFatal -> "fatal") (run mbox_empty ops))
   | _ -> raise Not_found
 
 let () =
